@@ -338,6 +338,8 @@ pub trait Obj: Send {
     /// bulk sampling of integer-valued outputs; false if not applicable
     fn fill_u64(&self, rng: &mut SimRng, buf: &mut [u64]) -> bool;
     fn clone_obj(&self) -> Box<dyn Obj>;
+    /// `self.clone_from(other)` if `other` has the same concrete type
+    fn clone_from_obj(&mut self, other: &dyn Obj) -> bool;
     /// `==` where the type implements `PartialEq`
     fn eq_obj(&self, other: &dyn Obj) -> Option<bool>;
     fn debug(&self) -> String;
@@ -365,6 +367,15 @@ macro_rules! common_obj_methods {
         }
         fn clone_obj(&self) -> Box<dyn Obj> {
             Box::new(Self(self.0.clone(), std::marker::PhantomData))
+        }
+        fn clone_from_obj(&mut self, other: &dyn Obj) -> bool {
+            match other.as_any().downcast_ref::<Self>() {
+                Some(o) => {
+                    self.0.clone_from(&o.0);
+                    true
+                }
+                None => false,
+            }
         }
         fn debug(&self) -> String {
             format!("{:?}", self.0)
@@ -532,13 +543,14 @@ pub fn dirichlet_to_slice(spec: &DistSpec, rng: &mut SimRng) -> Result<Out, Stri
         Scalar::F32 => {
             let a: Vec<f32> = spec.p.iter().map(|&x| x as f32).collect();
             let d = Dirichlet::new(&a).map_err(|e| format!("{e:?}"))?;
-            let mut buf = vec![0f32; d.sample_len()];
+            // a dirty buffer: every entry must be overwritten by the sampler
+            let mut buf = vec![f32::NAN; d.sample_len()];
             d.sample_to_slice(rng, &mut buf);
             Ok(Out::V32(buf))
         }
         _ => {
             let d = Dirichlet::new(&spec.p).map_err(|e| format!("{e:?}"))?;
-            let mut buf = vec![0f64; d.sample_len()];
+            let mut buf = vec![f64::NAN; d.sample_len()];
             d.sample_to_slice(rng, &mut buf);
             Ok(Out::V64(buf))
         }
@@ -722,9 +734,38 @@ macro_rules! build_weighted_float {
             Family::Alias => WeightedAliasIndex::<$W>::new(ws)
                 .map(so::<_, usize>)
                 .map_err(|x| format!("{}: {x:?}", spec.label())),
-            Family::Tree => WeightedTreeIndex::<$W>::new(ws)
-                .map(es::<_, usize>)
-                .map_err(|x| format!("{}: {x:?}", spec.label())),
+            Family::Tree => {
+                // n[0] = how the value is reached: 0 new(ws); 1 pushes; 2 new(ones) then
+                // update to ws; 3 new(ws), then every third weight set to 0 and back
+                let mode = spec.n.first().copied().unwrap_or(0);
+                let e = |x: rand_distr::weighted::Error| format!("{}: {x:?}", spec.label());
+                let t = match mode {
+                    1 => {
+                        let mut t = WeightedTreeIndex::<$W>::new(Vec::<$W>::new()).map_err(e)?;
+                        for w in &ws {
+                            t.push(*w).map_err(e)?;
+                        }
+                        t
+                    }
+                    2 => {
+                        let mut t = WeightedTreeIndex::<$W>::new(vec![1.0 as $W; ws.len()]).map_err(e)?;
+                        for (i, w) in ws.iter().enumerate() {
+                            t.update(i, *w).map_err(e)?;
+                        }
+                        t
+                    }
+                    3 => {
+                        let mut t = WeightedTreeIndex::<$W>::new(ws.clone()).map_err(e)?;
+                        for i in (0..ws.len()).step_by(3) {
+                            t.update(i, 0.0).map_err(e)?;
+                            t.update(i, ws[i]).map_err(e)?;
+                        }
+                        t
+                    }
+                    _ => WeightedTreeIndex::<$W>::new(ws).map_err(e)?,
+                };
+                Ok(es::<_, usize>(t))
+            }
             _ => unreachable!(),
         }
     }};
